@@ -6,7 +6,7 @@ PROPS = {
                  "direction x payload sizes (boundary set 1,4095..65537 or log-uniform up to the tier cap) x write partition x delivery "
                  "chunking from one seeded choice stream; non-trivial = at least one connection moved >0 bytes end to end; distinct = "
                  "distinct schedule shapes (hash of the sequence of event kinds with sizes bucketed)"),
-        "probes": ["connections_completed", "connections_with_think_time", "fault_segmentation"],
+        "probes": ["connections_completed", "connections_with_think_time", "runs_with_concurrent_connections", "fault_segmentation"],
         "technique": "deterministic simulation: seeded search over payload x write partition x delivery chunking x carrier, PRF byte-stream oracle",
         "level_text": ("Seeded exploration of whole-system worlds (real client + real server + real dependencies on a simulated network and clock): "
                        "every byte received at either boundary is checked against a position-addressable PRF stream, so loss, duplication, reordering "
